@@ -37,7 +37,7 @@ def check_circuit(n, prog, env, acc, mpl_every):
     pv0 = [(p.get(), p.min_bound, p.max_bound, p.label) for p in params]
     acc.state(fp0)
     for k, (dt, loss, vals, labels, expect) in enumerate(option_sets(nu)):
-        if dt == "mpl" and expect is None and (k + len(prog)) % mpl_every:
+        if dt == "mpl" and expect is None and (k + kernel.fp8(prog)[0]) % mpl_every:
             continue
         case = {**case0, "display_type": dt, "display_loss": loss, "show_parameter_values": vals,
                 "mode_labels": labels}
